@@ -187,12 +187,40 @@ def run(ctx, rep):
         else:
             rep.undecided('D2.rank', fn, b, 'root function is not a nested def', construct='rank of the root function')
     lo, hi = (b.args[1:3] + [None, None])[:2] if len(b.args) >= 3 else (kwarg(b, 'a'), kwarg(b, 'b'))
-    lo_ok = lo is not None and (prog.resolve(fn.module, lo) == 'copulas.utils.EPSILON' or (isinstance(const_value(lo), (int, float)) and 0 <= const_value(lo) < 1))
-    hi_ok = hi is not None and ((isinstance(const_value(hi), (int, float)) and 0 < const_value(hi) <= 1) or
-                                (isinstance(hi, ast.BinOp) and isinstance(hi.op, ast.Sub) and const_value(hi.left) in (1, 1.0)
-                                 and prog.resolve(fn.module, hi.right) == 'copulas.utils.EPSILON'))
-    rep.check('D2.root', fn, b, lo_ok and hi_ok, f'bracket [{short(lo)}, {short(hi)}] lies inside [0, 1]',
-              f'the bracket [{short(lo)}, {short(hi)}] is not inside [0, 1]: results outside the unit interval', construct='bracket')
+    from ..constfold import fold
+    lo_v = fold(prog, fn.module, lo, fn.node) if lo is not None else None
+    hi_v = fold(prog, fn.module, hi, fn.node) if hi is not None else None
+    if lo_v is None or hi_v is None:
+        rep.undecided('D2.root', fn, b, f'the bracket [{short(lo) if lo is not None else "?"}, {short(hi) if hi is not None else "?"}] is not a pair of foldable constants',
+                      construct='bracket')
+    elif not (0 <= lo_v and hi_v <= 1):
+        rep.bad('D2.root', fn, b, f'the bracket [{lo_v:g}, {hi_v:g}] is not inside [0, 1]: results outside the unit interval', construct='bracket')
+    elif lo_v > 1e-6 or hi_v < 1 - 1e-6:
+        rep.bad('D2.root', fn, b, f'the bracket [{lo_v:g}, {hi_v:g}] does not span the unit interval: a quantile outside it is never found '
+                '(the search raises because f has the same sign at both ends)', construct='bracket')
+    else:
+        rep.ok('D2.root', fn, b, f'bracket [{lo_v:g}, {hi_v:g}] spans the unit interval up to 1e-6 and lies inside it', construct='bracket')
+    # the scalar wrapper stacks (u, v) in this order: the family methods take the point as a row (u, v)
+    rep.rule('D2.stack', 'partial_derivative_scalar(U, V) evaluates partial_derivative at the rows (U, V), first argument in the first column')
+    pds = prog.method(BIV, 'partial_derivative_scalar', inherited=False)
+    from ..idioms import resolve as _resolve
+    pcalls = [c for c in walk_no_nested(pds.node) if isinstance(c, ast.Call) and is_self_attr(c.func, pds.self_name, 'partial_derivative') and c.args]
+    if len(pcalls) != 1:
+        rep.undecided('D2.stack', pds, pds.node.name, 'no single self.partial_derivative(...) call in partial_derivative_scalar', construct='scalar wrapper')
+    else:
+        arg = _resolve(pds.node, pcalls[0].args[0])
+        elts = None
+        if isinstance(arg, ast.Call) and call_name(arg) in ('column_stack', 'stack', 'hstack', 'array', 'transpose') and arg.args \
+                and isinstance(arg.args[0], (ast.Tuple, ast.List)):
+            inner = arg.args[0]
+            if len(inner.elts) == 1 and isinstance(inner.elts[0], (ast.Tuple, ast.List)):
+                inner = inner.elts[0]   # np.array([[U, V]])
+            elts = [e.id if isinstance(e, ast.Name) else None for e in inner.elts]
+        if elts is None or len(elts) != 2 or None in elts or set(elts) != {pds.params[1], pds.params[2]}:
+            rep.undecided('D2.stack', pds, pcalls[0], 'how the two scalars are assembled into a row is not recognised', construct='scalar wrapper')
+        else:
+            rep.check('D2.stack', pds, pcalls[0], elts == [pds.params[1], pds.params[2]], f'rows ({elts[0]}, {elts[1]})',
+                      f'the row is assembled as ({elts[0]}, {elts[1]}): the conditional CDF is evaluated at the transposed point', construct='scalar wrapper')
     # D3 dispatch
     for fam, indep, ret in (('copulas.bivariate.frank.Frank', 0, None), ('copulas.bivariate.gumbel.Gumbel', 1, 'y')):
         m = prog.cls(fam).methods.get('percent_point')
